@@ -37,6 +37,9 @@ TRUSTED = ["harness/emodify.py, harness/irdump.py; reading private tables of the
 SIG_ASM_REFERENT = "assembler-reads-symbol-referent-while-reference-cache-holds-it"
 
 
+SIG_DETACHED_PATCH_BLOCKS = "blocks-a-patch-puts-into-another-section-have-no-neighbours-in-the-block-ordering"
+
+
 def norm_names(d):
     d = json.loads(json.dumps(d))
     for y in d["syms"]:
@@ -206,9 +209,11 @@ def check_case(ctx, case):
         return
     ctx.case(case, sample={"edits": case.get("edits", [])} if nedits >= 2 else None, nontrivial=nedits >= 2)
     ctx.count("edits:%d" % min(nedits, 4))
+    other_section = any(l.strip().split()[:1] in ([".data"], [".section"], [".rodata"], [".bss"])
+                        for e in case.get("edits", []) for l in e.get("asm", "").splitlines())
     for p in sorted(set(problems)):
         ctx.count("cache-vs-ir")
-        ctx.violation("C09:cache-disagrees-with-ir", p, case)
+        ctx.violation("C09:" + (SIG_DETACHED_PATCH_BLOCKS if other_section and "adjacent_blocks" in p else "cache-disagrees-with-ir"), p, case)
     if multi:
         ctx.count("skipped:whole-deletion-plus-other-requests")
         return
@@ -235,7 +240,7 @@ def check_case(ctx, case):
     c1, _ = irdump.canon(norm_names(irdump.dump_ir(B.m, irdump.IdMap())))
     c2, _ = irdump.canon(norm_names(irdump.dump_ir(B2.m, irdump.IdMap())))
     if c1 != c2:
-        ctx.violation("C09:batch-differs-from-sequential", "one apply() and one-at-a-time application differ at %s" % (irdump.diff_paths(c1, c2)[:4],), case)
+        ctx.violation("C09:" + (SIG_DETACHED_PATCH_BLOCKS if other_section else "batch-differs-from-sequential"), "one apply() and one-at-a-time application differ at %s" % (irdump.diff_paths(c1, c2)[:4],), case)
 
 
 def aim_at_cached_references(case, rng):
@@ -332,6 +337,12 @@ def run(ctx):
         check_case(ctx, labels_between_patches(ctx.rng))
     for _ in range(ctx.budget(40, 800)):
         check_case(ctx, chain_of_whole_deletions(ctx.rng))
+    import glob
+    import os
+
+    for f in sorted(glob.glob(os.path.join(os.path.dirname(os.path.dirname(os.path.dirname(os.path.abspath(__file__)))), "corpus", "c09", "*.json"))):
+        ctx.count("corpus")
+        check_case(ctx, json.load(open(f)))
     for c in LE.load_corpus():
         check_case(ctx, c)
     for n in range(ctx.budget(600, 15000)):
